@@ -270,6 +270,7 @@ class Analysis:
         self.loop_nodes = {}
         self.alloc_size = {}
         self.octets = set()
+        self._guards = []
         self._rec = None
         self.run(max_passes)
 
@@ -508,8 +509,12 @@ class Analysis:
             return self.ev_un(e, st, nid)
         if k == 'cond':
             c = self.ev(e['a'][0], st, nid)
+            # arithmetic inside an arm is evaluated under the arm's condition
+            self._guards.append(self.truth(c, True))
             a = self.ev(e['a'][1], st, nid)
+            self._guards[-1] = self.truth(c, False)
             b = self.ev(e['a'][2], st, nid)
+            self._guards.pop()
             return T.mk('ite', c, a, b)
         if k == 'call':
             return self.ev_call(e, st, nid)
@@ -622,7 +627,7 @@ class Analysis:
             return self.rel(op, x, y)
         if op == '-' and e.get('t') in ('unsigned long', 'unsigned int'):
             # unsigned difference (C12 S7: wraps to a huge value when x < y)
-            self.event(nid, ('usub', x, y, e.get('t'), e.get('l', 0)))
+            self.event(nid, ('usub', x, y, e.get('t'), e.get('l', 0), tuple(self._guards)))
         if op in ('+', '-', '*', '<<') and e.get('t') in NARROW:
             # arithmetic carried out in a type narrower than size_t (C12 S7: wrap-around)
             self.event(nid, ('narrow', op, x, y, e.get('t'), e.get('l', 0)))
